@@ -25,13 +25,13 @@ CBMC_BASE = ['--unwinding-assertions', '--pointer-overflow-check', '--undefined-
 
 class Job:
     def __init__(s, name, src, entry, tier='quick', defines=(), unwind=8, unwindset=(), ir2c=(), shims=(), cbmc=(),
-                 timeout=600, mem_gb=10, clang=(), tv=False, tv_vectors=300, tv_link=(), kf=None, desc='', bounds='',
-                 nochecks=False, kind='cbmc', fn=None, small=(), roots=None):
+                 timeout=600, mem_gb=5, clang=(), tv=False, tv_vectors=300, tv_link=(), kf=None, desc='', bounds='',
+                 nochecks=False, kind='cbmc', fn=None, small=(), roots=None, unwinding_assertions=True):
         s.name = name; s.src = src; s.entry = entry; s.tier = tier; s.defines = list(defines); s.unwind = unwind
         s.unwindset = list(unwindset); s.ir2c = list(ir2c); s.shims = list(shims); s.cbmc = list(cbmc)
         s.timeout = timeout; s.mem_gb = mem_gb; s.clang = list(clang); s.tv = tv; s.tv_vectors = tv_vectors
         s.tv_link = list(tv_link); s.kf = kf; s.desc = desc; s.bounds = bounds; s.nochecks = nochecks
-        s.kind = kind; s.fn = fn; s.small = list(small); s.roots = roots
+        s.kind = kind; s.fn = fn; s.small = list(small); s.roots = roots; s.unwinding_assertions = unwinding_assertions
 
 
 def sh(cmd, timeout=None, mem_gb=None, cwd=None, env=None):
@@ -80,6 +80,7 @@ def cbmc_cmd(job, cfile, extra=()):
     base = list(CBMC_BASE)
     if job.nochecks:
         base = ['--unwinding-assertions', '--drop-unused-functions', '--no-malloc-may-fail', '--no-standard-checks']
+    if not job.unwinding_assertions: base = [b for b in base if b != '--unwinding-assertions']
     return cmd + base + job.cbmc + list(extra)
 
 
@@ -305,16 +306,27 @@ def main(argv):
     wd = tempfile.mkdtemp(prefix='verif_%s_' % o.prop, dir=os.environ.get('VERIF_TMP', '/tmp'))
     results = []
     try:
-        import threading
-        budget = [float(os.environ.get('VERIF_MEM_GB', '44'))]; cond = threading.Condition()
+        # machine-wide memory budget shared by every ./check process (several may run at once): a flock-protected ledger
+        import fcntl
+        LEDGER = os.environ.get('VERIF_MEM_LEDGER', '/tmp/verif_mem_ledger.json'); TOTAL = float(os.environ.get('VERIF_MEM_GB', '52'))
+        def ledger(update):
+            with open(LEDGER, 'a+') as f:
+                fcntl.flock(f, fcntl.LOCK_EX)
+                f.seek(0); txt = f.read()
+                try: d = json.loads(txt) if txt.strip() else {}
+                except Exception: d = {}
+                d = {k: v for k, v in d.items() if os.path.exists('/proc/%s' % k.split(':')[0])}
+                r = update(d)
+                f.seek(0); f.truncate(); f.write(json.dumps(d)); f.flush()
+                return r
         def guarded(j):
-            need = min(j.mem_gb, budget[0]) if j.mem_gb > 44 else j.mem_gb
-            with cond:
-                while budget[0] < need: cond.wait()
-                budget[0] -= need
+            need = min(j.mem_gb, TOTAL); key = '%d:%s' % (os.getpid(), j.name)
+            def try_take(d):
+                if sum(d.values()) + need <= TOTAL or not d: d[key] = need; return True
+                return False
+            while not ledger(try_take): time.sleep(2 + random.random() * 3)
             try: return run_job(j, wd, seed)
-            finally:
-                with cond: budget[0] += need; cond.notify_all()
+            finally: ledger(lambda d: d.pop(key, None))
         jobs.sort(key=lambda j: -j.mem_gb)
         with cf.ThreadPoolExecutor(max_workers=o.j) as ex:
             futs = {ex.submit(guarded, j): j for j in jobs}
